@@ -298,6 +298,38 @@ def rec_case(draw, max_obj=5, max_sp=4, min_obj=1, min_sp=1, costs="coherent", l
 
 
 @st.composite
+def duplicated_clade_case(draw, max_sp=5, costs="coherent"):
+    """An object tree whose root joins two subtrees over the SAME multiset of leaf species but with independently drawn
+    shapes (what a duplication of a whole clade followed by differential rearrangement looks like), optionally next to
+    one more leaf: 6..9 object leaves."""
+    nsp = draw(st.integers(2, max_sp))
+    species = SPECIES_NAMES[:nsp]
+    stree = draw(nested_tree(species))
+    hosts = [species[draw(st.integers(0, nsp - 1))] for _ in range(draw(st.integers(3, 4)))]
+    los = {}
+    halves = []
+    k = 0
+    for _copy in range(2):
+        names = []
+        for s in hosts:
+            names.append(f"{s}_{k}")
+            los[names[-1]] = s
+            k += 1
+        halves.append(draw(nested_tree(names)))
+    otree = tuple(halves)
+    if draw(st.booleans()):
+        s = species[draw(st.integers(0, nsp - 1))]
+        los[f"{s}_{k}"] = s
+        otree = (otree, f"{s}_{k}") if draw(st.booleans()) else (f"{s}_{k}", otree)
+    return {
+        "object_tree": nested_to_newick(otree, "O"),
+        "species_tree": nested_to_newick(stree, "S"),
+        "leaf_object_species": los,
+        "costs": draw(coherent_costs(labelled=False)) if costs == "coherent" else dict(DEFAULT),
+    }
+
+
+@st.composite
 def many_orders_case(draw, nfam=5, max_obj=4, max_sp=2):
     """Few leaves carrying one or two families each out of `nfam`: the precedence constraints are so few that the
     families admit dozens of root orders (5 families: 30..120), all of which the ordered solvers have to explore."""
